@@ -1,5 +1,5 @@
 CONSTANTS Mode = "inst"
-  NCand = 9
+  NCand = 10
 INIT Init
 NEXT Next
 INVARIANT TypeOK
